@@ -81,10 +81,35 @@ def expand_take(ctx, L):
     return L[:i] + ["alloc %d" % max(1, free - 879)] + L[i + 1:]
 
 
+def table_edge_history(ctx):
+    """directed: a file whose length sits at a table edge (72 / 73 / 144 / 145 blocks) is reopened and then - without any seek - read or
+    overwritten sequentially across the edge and extended (the buffers the append continues from are the ones the sequential walk left
+    behind); every flavour, OFS in particular (it walks the nextData chain)"""
+    rng = ctx.rng
+    flav = rng.choice([0, 0, 2, 4, 1, 5])
+    bs = 512 if flav & 1 else 488
+    k = rng.choice([72, 73, 73, 74, 144, 145, 146])
+    nm = hexs(b"edgefile")
+    L = gen.dev_create("DD", flav) + ["mountdev 0", "mount 0 0", "open 0 - %s w" % nm, "write 0 11 %d" % (k * bs - rng.choice([0, 0, 1, 200])), "close 0"]
+    how = rng.choice(["overwrite-extend", "overwrite-extend", "read-append", "read-write", "chunks"])
+    if how == "overwrite-extend":
+        L += ["open 0 - %s %s" % (nm, rng.choice(["w", "rw"])), "write 0 12 %d" % (k * bs + rng.choice([1, 500, bs, 3 * bs])), "close 0"]
+    elif how == "read-append":
+        L += ["open 0 - %s rw" % nm, "read 0 %d" % (k * bs + 10), "write 0 13 %d" % rng.choice([1, bs, 2 * bs + 1]), "close 0"]
+    elif how == "read-write":
+        L += ["open 0 - %s rw" % nm, "read 0 %d" % ((k - 1) * bs), "write 0 14 %d" % (3 * bs), "read 0 10", "write 0 15 %d" % bs, "close 0"]
+    else:
+        L += ["open 0 - %s rw" % nm] + ["write 0 %d %d" % (20 + i, bs) for i in range(k + 3)] + ["close 0"]
+    L += ["open 0 - %s r" % nm, "read 0 %d" % ((k + 5) * bs), "close 0", "umount", "umountdev"]
+    return L, 0, 1760, {"flavour": flav, "blocks_of_file": k, "how": how, "blocks": 1760}
+
+
 def run(ctx):
     proof = common.proof_status(ctx)
     rng = ctx.rng
     gens = []
+    for i in range(10 if ctx.tier == "quick" else 120):
+        gens.append(("table-edge-sequential", table_edge_history))
     for i in range(14 if ctx.tier == "quick" else 200):
         gens.append(("salvage-history", lambda c: (lambda r: (expand_take(c, r[0]), r[1], r[2], r[3]))(salvage_history(c))))
     for i in range(6 if ctx.tier == "quick" else 120):
